@@ -55,7 +55,7 @@ def fill_groups(rng, c, h, ordout, full_only=False):
 
 
 def histories(rng, tier):
-    n = 150 if tier == 'quick' else 2500
+    n = 400 if tier == 'quick' else 2500
     out = []
     for _ in range(n):
         kind = rng.choice(['flt', 'flt', 'int', 'int', 'bool', 'rec', 'wide'])
